@@ -18,4 +18,7 @@ Definition redact_keeps_only_ttl : bool := true. (* fields of a redacted hop tha
 
 (** RunTraceroute: a failed multi-query run returns (nil, err); then, in this order, the post-processing steps with their guards *)
 Definition run_error_returns_no_result : bool := true.
+
+(** GetPublicIP: the providers are asked in order, any error of one moves on to the next, the first success is returned *)
+Definition publicip_first_success_loop : bool := true.
 Definition run_pipeline_order : list (pguard * pstep) := [(G_ReverseDns, PS_Enrich); (G_None, PS_Normalize); (G_SkipPrivate, PS_Redact)].
